@@ -19,6 +19,7 @@ import TbbVerif.Proofs.C16.Serializer
 import TbbVerif.Proofs.C16.Pending
 import TbbVerif.Proofs.C16.GC
 import TbbVerif.Proofs.C16.Slots
+import TbbVerif.Proofs.C16.World
 
 namespace TbbVerif.C16
 
@@ -130,6 +131,54 @@ theorem allot_softzero_none {total mand : Nat} {levels : List (Nat × List Clien
   refine ⟨hle, fun hz => ?_⟩
   have : effLimit 0 mand = 0 := by simp [effLimit, hz]
   omega
+
+/-! ## the market and the serializer as wired by `threading_control_impl` -/
+
+/-- **market_words_consistent.** From a fresh market, after *any* sequence of `register_client` / `unregister` /
+`adjust_demand` / `set_active_num_workers` that the machine accepts, the demand words equal the sums of the clients'
+requests: the hypothesis `WF` of the allotment theorems holds in every reachable state. -/
+theorem market_words_consistent (soft : Nat) (ops : List WOp) (w : World) (h : (World.init soft).run ops = some w) :
+    WF w.market.totalDemand.toNat w.market.levels :=
+  (World.run_wf ops _ w (MWF.init soft) h).wf
+
+/-- **allotment_is_current.** In a reachable state, `adjust_demand` leaves in the arenas exactly `allot` of the new words
+(so `allot_sum`, `allot_le_request`, `allot_priority`, `allot_mandatory` speak about `my_num_workers_allotted`). -/
+theorem allotment_is_current (soft : Nat) (ops : List WOp) (w w' : World) (h : (World.init soft).run ops = some w)
+    (id : Nat) (md wd : Int) (hs : w.step (.adjust id md wd) = some w') :
+    allot w'.market.softLimit w'.market.totalDemand.toNat w'.market.mandatoryNum.toNat w'.market.levels
+      = some w'.market.allotView := by
+  have hwf := World.run_wf ops _ w (MWF.init soft) h
+  simp only [World.step] at hs
+  split at hs
+  · simp at hs
+  · split at hs
+    · split at hs
+      · rename_i m2 delta hadj
+        simp at hs
+        subst hs
+        exact (Market.adjust_wf hwf hadj).2
+      · simp at hs
+    · simp at hs
+
+/-- **workers_within_budget.** In every reachable state (arenas with fewer than `pending_delta_base` worker slots) the sum of
+all deltas handed to the thread dispatcher (`adjust_job_count_estimate`) is `min(effective soft limit, total demand)`:
+the server is never asked for more workers than the limit (`L - 1` under `global_control`, or the single mandatory
+worker when the limit is 0 and a mandatory request is outstanding), nor for more than the arenas demand. -/
+theorem workers_within_budget (soft : Nat) (ops : List WOp) (w : World) (hsmall : ∀ o ∈ ops, o.small)
+    (h : (World.init soft).run ops = some w) :
+    w.proxy.ser.handed =
+      min (if w.market.softLimit = 0 ∧ 0 < w.market.mandatoryNum then 1 else (w.market.softLimit : Int)) w.market.totalDemand ∧
+    w.proxy.ser.pending = Pack.base := by
+  have hinv := World.run_inv ops _ w (WInv.init soft) hsmall h
+  refine ⟨?_, hinv.px.pend⟩
+  rw [hinv.px.handed, hinv.px.soft, hinv.tot, hinv.lim]
+  by_cases he : w.proxy.enabled = true
+  · have := hinv.px.en.1 he
+    rw [hinv.mand] at this
+    simp [he, this]
+  · have hne : ¬ (w.userLimit = 0 ∧ 0 < w.market.mandatoryNum) := fun hc => he (hinv.px.en.2 (by rw [hinv.mand]; exact hc))
+    have he' : w.proxy.enabled = false := by simpa using he
+    simp [he', hne]
 
 /-! ## `arena::update_request` -/
 
@@ -273,6 +322,10 @@ example : anyEligible [(2, [⟨0, 2⟩]), (7, [⟨0, 3⟩, ⟨1, 4⟩])] ∧
 
 /-- inconsistent words are rejected, not defaulted: a client asks for workers at a level whose demand word is 0 -/
 example : allot 3 4 0 [(0, [⟨0, 4⟩])] = none := by decide
+
+/-- a reachable world: two arenas, limit 3, demands 4 and 2 (level 0 served first): allotment [[2],[1],…], 3 workers requested -/
+example : ((World.init 3).run [.reg 1 1 4, .reg 2 0 2, .adjust 1 0 4, .adjust 2 1 2]).map
+    (fun w => (w.market.allotView.take 2, w.proxy.ser.handed)) = some ([[2], [1]], 3) := by decide
 
 /-- the packed word with two pending calls (+3, −5) -/
 example : Pack.Layout (Pack.add (Pack.add Pack.base 3) (-5)) 2 (-2) := by
